@@ -446,11 +446,11 @@ pub fn check(tier: Tier) -> i32 {
     }
 
     // Tier B: random reports, round trip + every truncation point for a quarter of them
-    drive(&ctx, "random", tier.pick(20_000, 400_000), case_strategy, run_case);
+    drive(&ctx, "random", tier.pick(50_000, 500_000), case_strategy, run_case);
 
     // Tier C: end-to-end cross-check - reports written by `fclones group` on generated trees with
     // hostile names, cut at many offsets, fed to `fclones remove --dry-run`
-    drive(&ctx, "cli-truncation", tier.pick(120, 1500), cli_case_strategy, cli_run_case);
+    drive(&ctx, "cli-truncation", tier.pick(240, 2000), cli_case_strategy, cli_run_case);
     crate::run::cleanup_process_scratch();
 
     ctx.finish(
